@@ -26,4 +26,11 @@ theorem setfenv_level_full_fails : type_of% @GLua.Props.C03.setfenv_level_full_f
 theorem strictlySorted_iff : type_of% @GLua.Props.C03.strictlySorted_iff := @GLua.Props.C03.strictlySorted_iff
 theorem inv_passes_monitor : type_of% @GLua.Props.C03.inv_passes_monitor := @GLua.Props.C03.inv_passes_monitor
 
+theorem closeDiscipline_sound : type_of% @GLua.Props.C03.closeDiscipline_sound := @GLua.Props.C03.closeDiscipline_sound
+theorem compile_establishes_discipline_before_fix_fails : type_of% @GLua.Props.C03.compile_establishes_discipline_before_fix_fails := @GLua.Props.C03.compile_establishes_discipline_before_fix_fails
+theorem compile_establishes_discipline_partial : type_of% @GLua.Props.C03.compile_establishes_discipline_partial := @GLua.Props.C03.compile_establishes_discipline_partial
+theorem checked_code_refines_cells : type_of% @GLua.Props.C03.checked_code_refines_cells := @GLua.Props.C03.checked_code_refines_cells
+theorem closures_keep_variables : type_of% @GLua.Props.C03.closures_keep_variables := @GLua.Props.C03.closures_keep_variables
+theorem closures_keep_variables_before_fix_fails : type_of% @GLua.Props.C03.closures_keep_variables_before_fix_fails := @GLua.Props.C03.closures_keep_variables_before_fix_fails
+
 end GLua.Props.C03M
